@@ -108,6 +108,12 @@ PROFILES = {
     "components": dict(sizes=((3, 8), (1, 1), (1, 1)), steps=(8, 20), only=1,
                        weights=dict(bs=30, ps=16, loss=12, bar=4, swap=12, u=10, herald=0, add=0, unpack=0, compress=0, nonadj=0, copy=0, plus=0)),
     # rewrite-heavy histories
+    # a group carried into a larger circuit by an UNGROUPED add at an offset (object 3 grouped into the otherwise empty object 2, object 2 added to
+    # object 1), swaps on both sides, then the rewrites and a few later edits: the carried group must keep blocking / moving with its modes
+    "carried": dict(sizes=((5, 7), (3, 4), (2, 2)), steps=(0, 0),
+                    plan=((3, "ps", {}), (3, "bs", {}), (2, "add", {"s": 3, "grp": True}), (1, "swap", {}), (1, "add", {"s": 2, "grp": False}), (1, "swap", {}),
+                          (1, "any", {}), (1, "compress", {}), (1, "any", {}), (1, "nonadj", {}), (1, "any", {}), (1, "unpack", {}), (1, "any", {})),
+                    weights=dict(bs=20, ps=10, loss=5, bar=0, swap=30, u=0, herald=0, add=0, unpack=5, compress=20, nonadj=10, copy=0, plus=0)),
     "rewrites": dict(sizes=((3, 6), (2, 4), (2, 3)), steps=(8, 16),
                      weights=dict(bs=24, ps=8, loss=5, bar=2, swap=20, u=3, herald=5, add=10, unpack=8, compress=14, nonadj=14, copy=5, plus=3)),
 }
@@ -158,12 +164,18 @@ def gen_trace(rng, numeric=True, profile="wiring", values=None, p_bad=0.06):
             return rng.choice([-1, n, 90, 91])
         return rng.randrange(max(n, 1))
 
-    for _ in range(rng.randint(*steps)):
+    plan = list(prof.get("plan", ())) or [None] * rng.randint(*steps)
+    for step in plan:
         live = [o for o, c in objs.items() if c is not None]
         t = prof["only"] if "only" in prof else rng.choice(live)
-        c = objs[t]
+        forced = {}
         bad = rng.random() < p_bad
         kind = rng.choices(kinds, wts)[0]
+        if step is not None:
+            t, k2, forced = step
+            kind = kind if k2 == "any" else k2
+            bad = False
+        c = objs[t]
         nuser = c.n_modes - len(c._internal_modes)
         if kind == "bs":
             m1 = mode(c, bad)
@@ -225,12 +237,15 @@ def gen_trace(rng, numeric=True, profile="wiring", values=None, p_bad=0.06):
             n = rng.choice([0, 0, 1, 1, 2])
             i = mode(c, bad)
             o = i if rng.random() < 0.5 else mode(c, False)
-            rec.call("herald", t, (n, i, o), lambda: c.herald(n, ad.mode_arg(i), ad.mode_arg(o)))
+            rec.call("herald", t, (n, i, o), (lambda: c.herald(n, ad.mode_arg(i))) if (o == i and rng.random() < 0.7) else (lambda: c.herald(n, ad.mode_arg(i), ad.mode_arg(o))))
         elif kind == "add":
-            s = rng.choice(live)
+            s = forced.get("s", rng.choice(live))
             sub = objs[s]
             m = mode(c, bad)
-            grp = rng.random() < 0.4
+            grp = forced.get("grp", rng.random() < 0.4)
+            if forced:
+                room = (c.n_modes - len(c._internal_modes)) - (sub.n_modes - len(sub.heralds["input"]))
+                m = rng.randint(1 if room >= 1 else 0, max(room, 0))          # a valid start mode, preferably not 0
             if c.n_modes + sub.n_modes > 9:
                 continue
             rec.call("add", t, (s, m, grp), lambda: c.add(sub, ad.mode_arg(m), group=grp))
